@@ -53,7 +53,7 @@ KINDS = ["valid", "not-json", "empty", "truncated", "binary", "foreign-type", "b
          # the same text in an encoding a text-mode reader does not expect: judged DIFFERENTIALLY against loading the file directly
          "encoded-utf8-bom", "encoded-utf16"]
 CLASS_FLOORS = {"layouts-0": 3, "layouts-1": 20, "layouts-2": 20, "layouts-3": 10, "compose-preferred": 20, "legacy-name": 20,
-                "both-names": 20, "spelling-relative": 20, "spelling-double-slash": 10, "spelling-dot-segment": 10, "spelling-relative-dotdot": 10, "trailing-slash": 20, "heterogeneous": 10, "missing-file": 50, "accessor-loaded": 100}
+                "both-names": 20, "spelling-relative": 20, "spelling-double-slash": 10, "spelling-dot-segment": 10, "spelling-relative-dotdot": 10, "trailing-slash": 20, "heterogeneous": 10, "missing-file": 50, "accessor-loaded": 100, "mixed-kinds-two-names": 10}
 for _k in KINDS:
     CLASS_FLOORS["kind-" + _k] = 10
 
@@ -204,6 +204,9 @@ def materialise(pm, cfg, base, texts):
                 if key not in texts:
                     texts[key] = make_text(pm, acc, tag)
                 kind = cfg["kind"] if acc == cfg.get("designated", "info") else "valid"
+                only = cfg.get("spoil_only")           # 'current' / 'legacy': of two names, only that file is spoiled
+                if only and len(names) == 2 and name != NAMES[acc][0 if only == "current" else 1]:
+                    kind = "valid"
                 t = texts[key]
                 if kind == "valid-empty-payload":
                     kind, t = "valid", empty_payload(t, acc)
@@ -331,6 +334,15 @@ def _check_config(ctx, pm, cfg, workdir, texts, counter):
                 got = "dumps raised %s" % type(e).__name__
             if outcome == "loaded" and isinstance(got, str):
                 loaded_texts[acc] = got
+            if outcome == "loaded" and len(here) == 2 and got in want and len(want) == 2:
+                # which of the two names the library reads when both are there (observed, then held against it below)
+                for name, (kind0, t0) in here.items():
+                    d0 = pm[acc]()
+                    d0.loads(t0)
+                    if d0.dumps() == got:
+                        pref = "current" if name == NAMES[acc][0] else "legacy"
+                        prefs = ctx.__dict__.setdefault("_c20_name_pref", {})
+                        prefs.setdefault(acc, set()).add(pref)
             bad = outcome != "loaded" or got not in want
             ctx.monitor("accessor-equals-direct-load", fired=bad)
             if bad:
@@ -361,6 +373,35 @@ def _check_config(ctx, pm, cfg, workdir, texts, counter):
             if bad:
                 ctx.violation("no-open-on-second-access", "the metadata is loaded once and then reused (no file is opened again)", sub,
                               observed=[os.path.relpath(e[1], base) for e in ev2][:3], expected="no open event")
+        elif "valid" in kinds and len(here) == 2:
+            # one name valid, the other spoiled.  The statement does not say which name wins; the library must at least
+            # be CONSISTENT: the name it reads when both are valid is 'the file' here too - spoiled means RuntimeError,
+            # valid means that file's content - it may not fall through to the other name
+            prefs = ctx.__dict__.get("_c20_name_pref", {}).get(acc)
+            ctx.count("mixed-kinds-two-names")
+            if prefs is None or len(prefs) != 1:
+                ctx.note_add("mixed_kinds_not_judged_preference_unknown")
+            else:
+                pref_name = NAMES[acc][0 if list(prefs)[0] == "current" else 1]
+                pk, pt = here[pref_name]
+                if pk == "valid":
+                    d0 = pm[acc]()
+                    d0.loads(pt)
+                    want_mixed = d0.dumps()
+                else:
+                    want_mixed = "RuntimeError"
+                try:
+                    got_mixed = obj.dumps() if outcome == "loaded" else outcome
+                except Exception as e:
+                    got_mixed = "dumps raised %s" % type(e).__name__
+                bad = got_mixed != want_mixed and not (pk == "wrong-shape" and outcome != "loaded")
+                ctx.monitor("name-preference-consistent", fired=bad)
+                if bad:
+                    ctx.violation("name-preference-consistent", "with the current or the legacy file name: the name the library reads when both "
+                                  "files are valid is the file it answers for - an undecodable file under that name surfaces as RuntimeError, "
+                                  "it is not skipped in favour of the other name", sub,
+                                  observed=_origin(got_mixed) if outcome == "loaded" else outcome,
+                                  expected=_origin(want_mixed) if want_mixed != "RuntimeError" else "RuntimeError (the %s file is %s)" % (pref_name, pk))
         elif "valid" not in kinds:
             kind = sorted(kinds)[0]
             ctx.count("kind-" + kind)
@@ -499,6 +540,8 @@ def run_shard(ctx):
                 if cfg["files"][d] != "absent":
                     cfg["designated"] = d
                     break
+        if cfg["kind"] not in ("valid", "valid-empty-payload") and cfg["files"][cfg["designated"]] == "both":
+            cfg["spoil_only"] = [None, "current", "legacy"][n % 3]
         check_config(ctx, pm, cfg, workdir, texts, n)
         done += 1
         if n < 2:
